@@ -85,8 +85,11 @@ def model_check(ctx, quick, descs=None):
 GEN_TAIL = "SPECIFICATION GSpec\nINVARIANT EmitHist\nCHECK_DEADLOCK FALSE\n"
 
 
-def gen_cfg(mode, maxlen=3, selseed=1, selmod=12):
-    return (base_constants() + '  GenMode = "%s"\n  MaxLen = %d\n  MenuN = 17\n  SelSeed = %d\n  SelMod = %d\n' % (mode, maxlen, selseed, selmod)
+MENU_N = 25          # descriptors m01..m25 of Pools!Menu12 (the name is historical)
+
+
+def gen_cfg(mode, maxlen=3, selseed=1, selmod=12, menun=MENU_N):
+    return (base_constants() + '  GenMode = "%s"\n  MaxLen = %d\n  MenuN = %d\n  SelSeed = %d\n  SelMod = %d\n' % (mode, maxlen, menun, selseed, selmod)
             + GEN_TAIL)
 
 
@@ -103,8 +106,8 @@ def gen_menu(ctx):
     return menu, p
 
 
-def gen_histories(ctx, mode, maxlen=3, simulate=None, selmod=12):
-    cfg = write_cfg(ctx, "Gen_Pools_" + mode, gen_cfg(mode, maxlen, ctx.seed, selmod))
+def gen_histories(ctx, mode, maxlen=3, simulate=None, selmod=12, menun=MENU_N):
+    cfg = write_cfg(ctx, "Gen_Pools_" + mode, gen_cfg(mode, maxlen, ctx.seed, selmod, menun))
     if simulate:
         res = ctx.tlc("Gen_Pools", cfg, workers=1, simulate=simulate, depth=maxlen + 1, tag="Gen_Pools_" + mode, expect_ok=False, timeout=1800)
         if res.invariant_violated or "Error:" in res.raw:
@@ -208,8 +211,16 @@ def other_tag_class(menu, events):
 def classify(menu, ev, events_of_call, events=None):
     """signature + description of a rejected event (equality/inequality only; the verdict was TLC's)"""
     d = menu["descs"][ev["d"] - 1]
-    exp, got = d["exp"], ev["clauses"]
+    ep = 0
+    for e in (events or []):        # the epoch of the global function table the call ran in (Pools!GlobAt)
+        if e is ev:
+            break
+        if e["e"] == "epoch":
+            ep = e["c"]
+    exp, got = d.get({0: "exp", 1: "exp1", 2: "exp2"}[ep], d["exp"]), ev["clauses"]
     sig = dict(src="trace", event=ev["e"], car=d["d"]["car"])
+    if ep:
+        sig["epoch"] = ep
     if d["d"]["car"] == "struct" and events is not None:
         sig["type_seen_under_other_tag"] = other_tag_before(menu, events, ev)
     if ev["e"] == "ret":
@@ -246,7 +257,7 @@ def validate(ctx, menu, path, tag, max_rounds=4):
     Returns (events, n_calls, n_rechecks, rejected) where rejected = list of (event, events of that call, index)."""
     events = common.read_ndjson(path)
     # panics and deadlocks are not events of the model: reported by the caller, removed here
-    live = [e for e in events if e["e"] in ("reset", "call", "ret", "recheck")]
+    live = [e for e in events if e["e"] in ("reset", "epoch", "call", "ret", "recheck")]
     rejected = []
     cur = live
     for rnd in range(max_rounds + 1):
@@ -259,9 +270,9 @@ def validate(ctx, menu, path, tag, max_rounds=4):
         if line < 1 or line > len(cur):
             raise MachineryError("trace rejected at impossible line %s of %s" % (line, p))
         bad = cur[line - 1]
-        if bad["e"] == "call" or bad["e"] == "reset":
+        if bad["e"] in ("call", "reset", "epoch"):
             raise MachineryError("trace spec rejected a %s event (harness/spec out of step): %s" % (bad["e"], json.dumps(bad)[:300]))
-        of_call = [e for e in cur if e.get("c") == bad["c"] and e["e"] != "reset"]
+        of_call = [e for e in cur if e.get("c") == bad["c"] and e["e"] not in ("reset", "epoch")]
         rejected.append((bad, of_call, line))
         if rnd == max_rounds:
             break
@@ -270,7 +281,7 @@ def validate(ctx, menu, path, tag, max_rounds=4):
             # the scenario class of D7 (type validated earlier under another tag): report it once per trace, take the whole
             # class out, so that anything else in the trace is still judged
             drop |= other_tag_class(menu, cur)
-        cur = [e for e in cur if not (e.get("c") in drop and e["e"] != "reset")]
+        cur = [e for e in cur if not (e.get("c") in drop and e["e"] not in ("reset", "epoch"))]
     n_calls = sum(1 for e in live if e["e"] == "ret")
     n_re = sum(1 for e in live if e["e"] == "recheck")
     return events, n_calls, n_re, rejected
@@ -303,9 +314,10 @@ def nontrivial(menu, events):
 
 def corrupt_demo(ctx, menu, path, tag):
     """Binding demonstration: one logged clause of one ret event is changed; TLC must reject exactly that line."""
-    events = [e for e in common.read_ndjson(path) if e["e"] in ("reset", "call", "ret", "recheck")][:4000]
+    events = [e for e in common.read_ndjson(path) if e["e"] in ("reset", "epoch", "call", "ret", "recheck")][:4000]
     # cut at a point where nothing is pending
-    idx = next((i for i, e in enumerate(events) if e["e"] == "ret" and e["clauses"] and i > len(events) // 3), None)
+    idx = next((i for i, e in enumerate(events) if e["e"] == "ret" and e["clauses"] and i > len(events) // 3
+                and not menu["descs"][e["d"] - 1].get("free")), None)      # (a free descriptor accepts any non-empty clause list)
     if idx is None:
         raise MachineryError("no ret event with clauses to corrupt")
     ev = json.loads(json.dumps(events[idx]))
